@@ -1,7 +1,10 @@
 package main
 
 import (
+	"bufio"
 	"bytes"
+	"io"
+	"sync/atomic"
 	"context"
 	"fmt"
 	"os"
@@ -20,8 +23,14 @@ type SolveResult struct {
 	Raw     string
 }
 
+// The second stage is a portfolio: quantifier instantiation is sensitive to the random seed (the same
+// query can take 0.3 s with one seed and minutes with another), so z3 runs under several seeds next to
+// the older z3 and cvc5. Any `unsat` discharges the obligation.
 var solverBins = []struct{ name, bin string }{
 	{"z3-new", "z3-new"},
+	{"z3-new/seed1", "z3-new"},
+	{"z3-new/seed2", "z3-new"},
+	{"z3-new/seed3", "z3-new"},
 	{"z3", "z3"},
 	{"cvc5", "cvc5"},
 }
@@ -63,6 +72,9 @@ func runSolver(ctx context.Context, name, bin, file string, timeout time.Duratio
 		}
 	default:
 		args = []string{"-smt2", file}
+		if i := strings.Index(name, "/seed"); i >= 0 {
+			args = []string{"-smt2", "smt.random_seed=" + name[i+5:], "sat.random_seed=" + name[i+5:], file}
+		}
 	}
 	cctx, cancel := context.WithTimeout(ctx, backstop)
 	defer cancel()
@@ -147,12 +159,19 @@ func solve(workdir, id, query string, timeout time.Duration, wantModel bool) Sol
 	if short > 3*time.Second {
 		short = 3 * time.Second
 	}
-	r := runSolver(ctx, "z3-new", "z3-new", z3file, short, wantModel)
+	r := poolSolve(query, short, wantModel)
 	if r.Status == "unsat" || r.Status == "sat" {
 		return r
 	}
+	if r.Status == "error" {
+		// a confused worker must not decide anything: fall back to a process of its own
+		r = runSolver(ctx, "z3-new", "z3-new", z3file, short, wantModel)
+		if r.Status == "unsat" || r.Status == "sat" {
+			return r
+		}
+	}
 	first := r
-	ch := make(chan SolveResult, 3)
+	ch := make(chan SolveResult, 8)
 	var wg sync.WaitGroup
 	for _, s := range solverBins {
 		wg.Add(1)
@@ -161,6 +180,11 @@ func solve(workdir, id, query string, timeout time.Duration, wantModel bool) Sol
 			f := z3file
 			if name == "cvc5" {
 				f = cvcfile
+			}
+			if name == "z3-new" && first.Status == "timeout" && first.Seconds >= timeout.Seconds() {
+				// the default seed has already had the full budget in stage 1
+				ch <- first
+				return
 			}
 			ch <- runSolver(ctx, name, bin, f, timeout, wantModel)
 		}(s.name, s.bin)
@@ -199,4 +223,172 @@ func sanitizeFile(s string) string {
 		r = r[:150]
 	}
 	return r
+}
+
+// ---- persistent solver workers -------------------------------------------------------------------
+// Starting a solver process costs far more than deciding a typical obligation (and many starts in
+// parallel contend in the kernel), so first attempts go to long-lived `z3 -in` processes: every
+// query is preceded by (reset), which returns the solver to its initial state, and followed by an
+// (echo) sentinel. A worker that exceeds its CPU budget is killed and replaced; a worker is also
+// retired after a fixed number of queries.
+
+type z3Worker struct {
+	cmd   *exec.Cmd
+	stdin io.WriteCloser
+	out   *bufio.Reader
+	n     int
+}
+
+var (
+	workerPool   = make(chan *z3Worker, 64)
+	workerSerial int64
+)
+
+func newZ3Worker() *z3Worker {
+	cmd := exec.Command("z3-new", "-in", "-smt2")
+	in, err := cmd.StdinPipe()
+	if err != nil {
+		return nil
+	}
+	outp, err := cmd.StdoutPipe()
+	if err != nil {
+		return nil
+	}
+	cmd.Stderr = cmd.Stdout
+	if err := cmd.Start(); err != nil {
+		return nil
+	}
+	return &z3Worker{cmd: cmd, stdin: in, out: bufio.NewReaderSize(outp, 1<<16)}
+}
+
+func (w *z3Worker) kill() {
+	if w == nil || w.cmd == nil || w.cmd.Process == nil {
+		return
+	}
+	_ = w.stdin.Close()
+	_ = w.cmd.Process.Kill()
+	go w.cmd.Wait()
+}
+
+func getWorker() *z3Worker {
+	select {
+	case w := <-workerPool:
+		return w
+	default:
+		return newZ3Worker()
+	}
+}
+
+func putWorker(w *z3Worker) {
+	if w == nil {
+		return
+	}
+	if w.n > 400 {
+		w.kill()
+		return
+	}
+	select {
+	case workerPool <- w:
+	default:
+		w.kill()
+	}
+}
+
+// shutdownWorkers ends the idle workers (called when a command is done).
+func shutdownWorkers() {
+	for {
+		select {
+		case w := <-workerPool:
+			w.kill()
+		default:
+			return
+		}
+	}
+}
+
+// poolSolve decides one query on a persistent z3 worker within a CPU budget.
+func poolSolve(query string, budget time.Duration, wantModel bool) SolveResult {
+	w := getWorker()
+	if w == nil {
+		return SolveResult{Status: "error", Solver: "z3-new", Raw: "cannot start z3 worker"}
+	}
+	w.n++
+	serial := atomic.AddInt64(&workerSerial, 1)
+	sentinel := fmt.Sprintf("@@END-%d@@", serial)
+	cpu0, _ := cpuSeconds(w.cmd.Process.Pid)
+	var b strings.Builder
+	b.WriteString("(reset)\n")
+	b.WriteString(query)
+	b.WriteString("(check-sat)\n")
+	if wantModel {
+		b.WriteString("(get-model)\n")
+	}
+	b.WriteString("(echo \"" + sentinel + "\")\n")
+	type rd struct {
+		text string
+		err  error
+	}
+	done := make(chan rd, 1)
+	go func() {
+		var sb strings.Builder
+		for {
+			line, err := w.out.ReadString('\n')
+			if strings.Contains(line, sentinel) {
+				done <- rd{sb.String(), nil}
+				return
+			}
+			sb.WriteString(line)
+			if err != nil {
+				done <- rd{sb.String(), err}
+				return
+			}
+		}
+	}()
+	go func() { _, _ = io.WriteString(w.stdin, b.String()) }()
+	tick := time.NewTicker(20 * time.Millisecond)
+	defer tick.Stop()
+	start := time.Now()
+	backstop := 10*budget + 20*time.Second
+	cpu := 0.0
+	for {
+		select {
+		case r := <-done:
+			if c, ok := cpuSeconds(w.cmd.Process.Pid); ok {
+				cpu = c - cpu0
+			}
+			s := r.text
+			first := strings.TrimSpace(strings.SplitN(s, "\n", 2)[0])
+			res := SolveResult{Solver: "z3-new", Seconds: cpu, Raw: s}
+			switch {
+			case r.err != nil:
+				res.Status = "error"
+				w.kill()
+				return res
+			case first == "unsat":
+				res.Status = "unsat"
+			case first == "sat":
+				res.Status = "sat"
+				if i := strings.Index(s, "\n"); i >= 0 {
+					res.Model = s[i+1:]
+				}
+			case first == "unknown":
+				res.Status = "unknown"
+			case strings.Contains(s, "(error "):
+				res.Status = "error"
+			default:
+				res.Status = "error"
+			}
+			putWorker(w)
+			return res
+		case <-tick.C:
+			c, ok := cpuSeconds(w.cmd.Process.Pid)
+			if ok {
+				cpu = c - cpu0
+			}
+			if (ok && cpu > budget.Seconds()) || time.Since(start) > backstop {
+				w.kill()
+				return SolveResult{Status: "timeout", Solver: "z3-new", Seconds: cpu}
+			}
+		}
+	}
 }
